@@ -73,8 +73,9 @@ from run import Broken, Violation, Infra
 sys.path.insert(0, os.path.dirname(os.path.abspath(__file__)))
 import c15_globals as G  # noqa: E402  (settings / registries / generic section scheduler / import histories)
 import c15_shared as S   # noqa: E402  (template families / suspended generators / cache wrappers found at run time)
+import c15_inner as I    # noqa: E402  (source-directed inner-part variants: documents that leave something behind)
 
-GEN = ["GlobalWrites", "Isolation"]
+GEN = ["GlobalWrites", "Isolation", "SharedState"]
 RULE = ("patch section: every edge of the model's coarse-turn state graph for k<=3 threads (+random k=4,5), bodies raise at random; "
         "caches: random key / (font, glyph ids) histories with repeats, evictions and failing keys, all ordered pairs of a family of "
         "font programs with equal length and identical table directory; round-key cache: all region-granularity interleavings of two "
@@ -90,7 +91,11 @@ RULE = ("patch section: every edge of the model's coarse-turn state graph for k<
         "table), each extracted in a fresh process in an order that makes every ordered pair adjacent, returned results digested again "
         "at the end; suspended generators: every document's generator held at its first yields (archives / mailboxes: at two, thorough: "
         "three) while the same and another thread extract the same document, a sibling and a document of the yielded result's type, under "
-        "a watchdog; every functools cache wrapper found at run time, real argument histories. "
+        "a watchdog; every functools cache wrapper found at run time, real argument histories; inner variants: for the smallest fixture "
+        "of every zip-based / html format every namespace declaration rebound to every other URI the current source knows for its prefix, "
+        "every (x)html part ended inside an open <w> for every element name w the parser-driving modules mention (quick: a seeded sample "
+        "of 70 per document), every part cut in the middle — base, variant, base on one thread; all ordered pairs of the 3 smallest "
+        "sibling fixtures per format. "
         "distinct = distinct (schedule | history | sequence); non-trivial = "
         "at least two sections overlap | a repeated key | a sequence of >= 2 documents")
 ASSUMPTIONS = [
@@ -116,6 +121,9 @@ ASSUMPTIONS = [
     "through a helper function or held by a third-party object is only seen by the suspended-generator oracle)",
     "S2T.CacheAlias: unbounded memo; immutability of cached values is read off the return ANNOTATION of the decorated function (the "
     "run-time recorder compares the handed-out objects themselves on the explored inputs)",
+    "S2T.Reuse abstracts an event-driven collector to (output, skip depth); tied by the generated facts that no stateful object is bound "
+    "at module / class level and no module-level container reaches a parameter-mutating function (callees resolved by simple name and "
+    "argument position; *args / **kwargs forwarding and containers reached through object attributes are not followed)",
     "registry changes made by modules OUTSIDE the package at import / first use (openpyxl: XML namespace prefixes, atexit) are judged "
     "through the probe documents' results only; codec / alias / mimetypes entries are seen through the probed labels and map digests",
 ]
@@ -124,6 +132,8 @@ TRUSTED = ["controlled schedulers (Controlled for sections, CallCtl for calls) +
            "tools/gen/globalwrites.py (AST inventory of global writes)",
            "harness/props/c15_globals.py (settings / registries snapshot, SectionCtl scheduler, deep / charset document writers, import-history child)",
            "tools/gen/isolation.py (AST + run-time inventory of yields inside with-blocks, lock-like objects, cache return annotations)",
+           "tools/gen/sharedstate.py (AST + run-time inventory of module-/class-level stateful objects, aliased mutations, mutable defaults)",
+           "harness/props/c15_inner.py (source-directed inner-part variant writer, new-interpreter children with hard timeout)",
            "harness/props/c15_shared.py (family document writers, forked children with watchdog, CacheRecorder)",
            "CPython threading.Lock, contextlib.contextmanager, try/finally, generator close semantics"]
 
@@ -2890,6 +2900,120 @@ def _baseline(ctx, st):
         raise Infra(f"isolated baseline child failed for {crashed[:3]}")
 
 
+def oracle_inner_variants(ctx, st):
+    """base document, source-directed variant of it (a part that ends inside a removed element / is written in a vocabulary
+    the source knows / breaks off), base document again — on one thread; the third result must equal the first (and the
+    isolated one) and the global snapshot must be unchanged"""
+    wd = st["wd"]
+    snap = GlobalSnapshot(wd)
+    guard = G.SettingsGuard()
+    try:
+        return I.run(ctx, REPO, RES, os.path.join(wd.docs, "inner"), extract_digest, snap.take, snap.diff, st["baseline"], Violation,
+                     budget_s=ctx.n(6, 60), check_fresh=_check_fresh_fixtures, isolated=isolated_digest, bisect=bisect_variants_pristine)
+    finally:
+        guard.restore()
+
+
+_PRISTINE_SCRIPT = r"""
+import sys, json
+sys.path[:0] = [HARNESS, PROPS]
+import c15
+print("DIGESTS " + json.dumps([c15.extract_digest(p) for p in PATHS]))
+"""
+
+
+def pristine_sequence(paths, timeout=120):
+    """digests of the documents extracted one after the other by a NEW interpreter (a forked child of this process would inherit
+    whatever this process has extracted so far); hard timeout"""
+    import subprocess
+    here = os.path.dirname(os.path.abspath(__file__))
+    code = (_PRISTINE_SCRIPT.replace("HARNESS", repr(os.path.dirname(here))).replace("PROPS", repr(here)).replace("PATHS", repr(list(paths))))
+    env = dict(os.environ, S2T_REPO=REPO, PYTHONPATH=REPO + os.pathsep + os.environ.get("PYTHONPATH", ""))
+    try:
+        r = subprocess.run([sys.executable, "-c", code], capture_output=True, text=True, timeout=timeout, env=env, cwd=REPO)
+    except subprocess.TimeoutExpired:
+        return ["CHILD-TIMEOUT"] * len(paths)
+    for line in r.stdout.splitlines():
+        if line.startswith("DIGESTS "):
+            return json.loads(line[8:])
+    raise Infra(f"pristine interpreter failed: {r.stderr[-400:]}")
+
+
+_BISECT_SCRIPT = r"""
+import sys, json, os, tempfile
+sys.path[:0] = [HARNESS, PROPS]
+import c15, c15_inner as I
+name, path, specs, keys = ARGS
+data = open(path, "rb").read()
+out = tempfile.mkdtemp(prefix="s2t_c15_bisect_")
+def cells():
+    r = {}
+    for k in keys:
+        m, _, a = k[4:].rpartition(".")
+        r[k] = c15._plain_repr(getattr(sys.modules.get(m), a, None))
+    return r
+c15.extract_digest(path)
+before = cells()
+hit = None
+for i, spec in enumerate(specs):
+    c15.extract_digest(I.variant_path(out, name, data, spec))
+    now = cells()
+    if now != before:
+        hit = [i, {k: [before[k][:120], now[k][:120]] for k in keys if now[k] != before[k]}]
+        break
+import shutil; shutil.rmtree(out, ignore_errors=True)
+print("BISECT " + json.dumps(hit))
+"""
+
+
+def bisect_variants_pristine(name, path, specs, keys, timeout=150):
+    """which variant changes the module cells `keys` (mod:<module>.<attr>)?  Decided in a NEW interpreter (this process is already
+    changed and a permanent change does not happen twice): (index, {cell: (before, after)}) or None"""
+    import subprocess
+    keys = [k for k in keys if k.startswith("mod:")]
+    if not keys:
+        return None
+    here = os.path.dirname(os.path.abspath(__file__))
+    code = (_BISECT_SCRIPT.replace("HARNESS", repr(os.path.dirname(here))).replace("PROPS", repr(here))
+            .replace("ARGS", repr((name, path, [list(x) for x in specs], keys))))
+    env = dict(os.environ, S2T_REPO=REPO, PYTHONPATH=REPO + os.pathsep + os.environ.get("PYTHONPATH", ""))
+    try:
+        r = subprocess.run([sys.executable, "-c", code], capture_output=True, text=True, timeout=timeout, env=env, cwd=REPO)
+    except subprocess.TimeoutExpired:
+        return None
+    for line in r.stdout.splitlines():
+        if line.startswith("BISECT "):
+            return json.loads(line[7:])
+    return None
+
+
+def _check_fresh_fixtures(seq):
+    by = {n: os.path.join(RES, n) for n in seq}
+    missing = [n for n in seq if not os.path.exists(by[n])]
+    if missing:
+        return True, f"fixtures {missing} are gone"
+    got = pristine_sequence([by[n] for n in seq])
+    alone = {n: pristine_sequence([by[n]])[0] for n in sorted(set(seq))}
+    for i, (n, d) in enumerate(zip(seq, got)):
+        if d != alone[n]:
+            return False, (f"a new interpreter that extracts {seq[:i + 1]} in this order gets digest {d} for {n}; "
+                           f"a new interpreter that extracts {n} alone gets {alone[n]}")
+    return True, "every document of the sequence has the digest it has alone in a new interpreter"
+
+
+def replay_inner_variant(ctx, st, rp):
+    if rp["kind"] == "fixture-sequence-fresh":
+        return _check_fresh_fixtures(rp["seq"])
+    wd = st["wd"]
+    path = os.path.join(RES, rp["base"])
+    if not os.path.exists(path):
+        return True, f"fixture {rp['base']} is gone"
+    snap = GlobalSnapshot(wd)
+    extract_digest(path)          # warm-up: lazily imported modules are not state changes
+    return I.check_one(os.path.join(wd.docs, "inner-replay"), rp["base"], path, list(rp["spec"]), extract_digest, snap.take, snap.diff,
+                       isolated_digest(path))
+
+
 def model_free_oracles(ctx, st):
     """the property statement on the real code, no Lean model involved: line-granularity interleavings of
     two real sections, cache transparency, sequences and thread workloads against the isolated baseline"""
@@ -2908,6 +3032,7 @@ def model_free_oracles(ctx, st):
             return 90 if ctx.thorough else max(6.0, min(18.0, 50.0 - (time.time() - ctx.t0)))
         parts = [("oracle:line-granularity _get_round_keys", lambda: oracle_lru_lines(ctx, ctx.n(4, 60))),
                  ("oracle:fresh-process sequences", lambda: oracle_fresh_sequences(ctx, st)),
+                 ("oracle:inner variants", lambda: oracle_inner_variants(ctx, st)),
                  ("oracle:lru_cache sites", lambda: corr_lru_decorated(ctx)),
                  ("oracle:template families", lambda: oracle_families(ctx, st)),
                  ("oracle:suspended generators", lambda: oracle_suspended(ctx, st)),
@@ -2923,7 +3048,7 @@ def model_free_oracles(ctx, st):
             v, b = guarded(name, part)
             ctx.coverage[name.split(":", 1)[1].replace(" ", "_") + "_s"] = round(time.time() - t1, 2)
             violations += v or []
-            if any(x.key.startswith(("settings.", "imports.")) for x in (v or [])):
+            if any(x.key.startswith(("settings.", "imports.", "history.")) for x in (v or [])):
                 st["global_violations"] = True
             if b is not None:
                 st.setdefault("oracle_broken", []).append(b)
@@ -3134,6 +3259,13 @@ def _replay(ctx, payload):
             _rec, found = check_cached_pass(by, names)
             hit = [w for _k, w, site, _d in found if list(site) == rp["site"]]
             return (not hit), (hit[0] if hit else f"every value handed out by {'.'.join(rp['site'])} is unmodified and equals the uncached result")
+        finally:
+            tempfile.tempdir = old_tmp
+    if kind in ("inner-variant", "fixture-sequence-fresh"):
+        old_tmp = tempfile.tempdir
+        tempfile.tempdir = st["wd"].tmp
+        try:
+            return replay_inner_variant(ctx, st, rp)
         finally:
             tempfile.tempdir = old_tmp
     if kind in ("import-history", "setting-section"):
